@@ -56,6 +56,19 @@ def gen_gomini():
     return True, ""
 
 
+def gen_stream():
+    """micro/stream.go (takeStream) -> coq/gen/StreamGen.v (the stream dialect of genmicro: CarCdr as one step of the stream model)."""
+    os.makedirs(vc.BUILD, exist_ok=True)
+    binp = os.path.join(vc.BUILD, "genmicro")
+    rc, out = vc.run(["go", "build", "-o", binp, "./cmd/genmicro"], cwd=vc.HARNESS, timeout=600, env=vc.GOENV)
+    if rc != 0:
+        return False, "genmicro does not build: " + out[-1500:]
+    rc, out = vc.run([binp, "-stream", vc.REPO, os.path.join(vc.COQ, "gen")], cwd=vc.VERIF, timeout=120, env=vc.GOENV)
+    if rc != 0:
+        return False, "genmicro -stream: " + out[-1500:]
+    return True, ""
+
+
 def gen_tables():
     import gen_tables as gt
     return gt.generate(vc.REPO, os.path.join(vc.COQ, "gen"))
